@@ -27,6 +27,7 @@ WORDS = {
     "scalar": dict(scalar_initial_mass=True),
     "parent_hel": dict(naming="parent"),
     "no_child_hel": dict(naming="nochild"),
+    "fail": None,  # one-builder histories only: a configuration that makes formulate() raise (a stable id that is no final state)
 }
 
 
@@ -59,6 +60,19 @@ def main() -> None:
             b = models.make_builder(models.Config(reaction, formalism, dynamics=dyn))
             try:
                 for w in history:
+                    if WORDS[w] is None:
+                        models.reconfigure(b, models.Config(reaction, formalism, stable="all"))
+                        b.config.stable_final_state_ids = [max(b.reaction.final_state) + 1 + i for i in range(len(b.reaction.final_state))]
+                        try:
+                            b.formulate()
+                        except ValueError as e:
+                            if "Angular momentum is not defined" in str(e):
+                                raise
+                        except Exception:  # noqa: BLE001  (the failing call of the history)
+                            pass
+                        else:
+                            raise RuntimeError("history word 'fail': formulate() did not raise")
+                        continue
                     models.reconfigure(b, models.Config(reaction, formalism, **WORDS[w]))
                     last = b.formulate()
                 break
